@@ -1,0 +1,26 @@
+//go:build verif
+
+package replicator
+
+import cid "github.com/ipfs/go-cid"
+
+// VerifFailedLister is implemented by the replicator in verification builds.
+type VerifFailedLister interface {
+	VerifFailed() []cid.Cid
+}
+
+// VerifFailed lists the hashes whose last fetch yielded nothing and that the next
+// load request will retry (verification builds only).
+func (r *replicator) VerifFailed() []cid.Cid {
+	r.muProcess.RLock()
+	defer r.muProcess.RUnlock()
+
+	failed := []cid.Cid{}
+	for c, state := range r.tasks {
+		if state == stateFailed {
+			failed = append(failed, c)
+		}
+	}
+
+	return failed
+}
